@@ -96,14 +96,25 @@ func vNextAroundTransition(zoneName string, base time.Time, cover string) {
 // in play: start instants every hour from 21:30 two and a half hours before the transition
 // to 04:30 after it; day-of-month an arbitrary non-empty subset of the three days around it, hour an arbitrary
 // non-empty subset of {0, 1, 22, 23} or unrestricted, minute and second 0. The result is strictly after the start,
-// matches on the zone's wall clock, and no whole hour in between matches.
+// matches on the zone's wall clock, and no whole hour in between matches. Also Asia/Pyongyang 2018 (half an hour
+// skipped across midnight) and Pacific/Apia 2011 (a whole calendar day skipped).
 //
-//verif:harness prop=C04 name=next_dst_at_midnight unwind=400 solver=z3-new
+//verif:harness prop=C04 name=next_dst_at_midnight unwind=400 solver=z3-new nonterm=violation replay_timeout=20
 func VerifNextDSTAtMidnight() {
 	zone := zzverif.RealZone("America/Sao_Paulo")
 	var base time.Time
 	var dayBits uint64
-	switch zzverif.Choose("transition", 4) {
+	switch zzverif.Choose("transition", 6) {
+	case 4:
+		// Asia/Pyongyang 2018-05-04: 23:30 (+08:30) -> 00:00 of 05-05 (+09:00): half an hour skipped ACROSS midnight
+		zone = zzverif.RealZone("Asia/Pyongyang")
+		base = time.Date(2018, 5, 4, 12, 0, 30, 0, time.UTC) // 20:30:30 +08:30 on 05-04; transition at 15:00 UTC
+		dayBits = 7 << 4
+	case 5:
+		// Pacific/Apia 2011-12-29 24:00 -> 2011-12-31 00:00: the whole of 12-30 does not exist
+		zone = zzverif.RealZone("Pacific/Apia")
+		base = time.Date(2011, 12, 30, 7, 30, 30, 0, time.UTC) // 21:30:30 -10 on 12-29; transition at 10:00 UTC
+		dayBits = 7 << 29
 	case 0:
 		base = time.Date(2018, 11, 4, 0, 30, 30, 0, time.UTC) // 21:30:30 -03 on 11-03; transition at 03:00 UTC
 		dayBits = 7 << 3
@@ -142,9 +153,9 @@ func VerifNextDSTAtMidnight() {
 	zzverif.Assert(got.After(start), "next_is_strictly_after_start")
 	zzverif.Assert(got.Second() == 0 && got.Nanosecond() == 0, "next_is_a_whole_minute")
 	zzverif.Assert(matches(got), "next_matches_the_fields_on_the_zone_wall_clock")
-	u := start.Truncate(time.Hour)
-	for i := 0; i < 80; i++ {
-		u = u.Add(time.Hour)
+	u := start.Truncate(30 * time.Minute) // (offsets of +08:30: whole wall-clock hours lie on the half-hour grid)
+	for i := 0; i < 160; i++ {
+		u = u.Add(30 * time.Minute)
 		if !u.Before(got) {
 			break
 		}
